@@ -228,9 +228,26 @@ def lower_fd_limit(n=X.FD_LIMIT):
         pass
     return lambda: None
 
+def peer_address_part(res):
+    """the harness gives every connection the peer address 127.0.0.1:40000; what the server does with OTHER peer addresses (an IPv6 client)
+    is seen on the real binary listening on ::1 - every request there has to be answered (props/c06_socket.ipv6_part)"""
+    import tempfile, shutil, os
+    from vlib import realbin as RB
+    from props import c06_socket
+    ok, out = RB.build()
+    if not ok:
+        res.disagree('cargo build --release', out[-300:], None, 'real-binary-build'); return
+    base = tempfile.mkdtemp(prefix='rwsc04-')
+    try:
+        with open(os.path.join(base, 'f.txt'), 'wb') as fh: fh.write(b'hello')
+        c06_socket.ipv6_part(res, base)
+    finally:
+        shutil.rmtree(base, ignore_errors=True)
+
 def run(res, tier, seed):
     import threading
     rng = C.Rng(seed)
+    peer_address_part(res)
     batches = build(rng, tier)
     # other configurations (every batch of one run_batches call shares its env): started first, they run beside the main campaign
     confs = X.config_batches(rng.fork('c04-config'), tier) + X.feature_config_batches(rng.fork('c04-config2'), tier)
